@@ -12,12 +12,21 @@ Requests → replies
   <t> enter <8 slots>          thread t: `with parallel_config(...)` reached           → ok | raises <E>
   <t> enterb <Val> <slot>      thread t: `with parallel_backend(backend[, n_jobs])`    → ok | raises <E>
   <t> exit                     thread t leaves its innermost block                     → ok | bad-op
+  <t> create <8 slots>         thread t: `cm_k = parallel_config(...)`, no `with`      → ok | raises <E>
+  <t> createb <Val> <slot>     thread t: `cm_k = parallel_backend(backend[, n_jobs])`  → ok | raises <E>
+  <t> unreg <k>                thread t: `cm_k.unregister()`; k counts the objects thread t has made (by
+                               enter/enterb/create/createb that did not raise), from 0 → ok | bad-op (no such object)
+  <t> spawn <u> <kind>         thread t starts thread u; kind = plain | copied | to_thread;
+                               u must be a thread id no request has named yet          → ok | bad-op
   <t> par <8 slots>            thread t constructs Parallel(...)                       → ok <obs> | raises <E>
   <t> gab <3 slots>            get_active_backend(prefer, require, verbose)            → ok <cls> <level> <n_jobs Val> | raises <E>
   <t> cfg                      thread t's `_backend.config`                            → cfg <8 slots>
   prog <8 slots> <program>     big-step `run` of a program tree from that configuration
                                → cfg <8 slots> <raised 0/1> <ops: E X P G letters>
      program ::= D | R | P <8 slots> program | G <3 slots> program | B <8 slots> program program | T program program
+  xprog <xprogram>             big-step `xrun` of a general program by a new thread (default configuration)
+                               → cfg <8 slots> <raised 0/1> <ops: E X P G C U letters>
+     xprogram ::= program's forms (over xprogram) | C <8 slots> xprogram | U <k> xprogram
 Anything else → bad-op. -/
 open JoblibModel JoblibModel.Config JoblibModel.IOUtil
 
@@ -91,6 +100,7 @@ def showOut : Out → String
   | .badExit => "bad-op"
   | .par r => showPar r
   | .gab r => showGab r
+  | .spawned => "ok"
 
 /-- Recursive-descent parser for program trees (fuel = number of tokens + 1). -/
 def parseProg : Nat → List String → Option (Prog × List String)
@@ -118,12 +128,53 @@ def parseProg : Nat → List String → Option (Prog × List String)
       pure (.try_ body k, rest)
     | _ => none
 
+/-- Recursive-descent parser for general programs (fuel = number of tokens + 1). -/
+def parseXProg : Nat → List String → Option (XProg × List String)
+  | 0, _ => none
+  | fuel + 1, toks =>
+    match toks with
+    | "D" :: rest => some (.done, rest)
+    | "R" :: rest => some (.raise, rest)
+    | "P" :: rest => do
+      let (e, rest) ← parseConfig rest
+      let (k, rest) ← parseXProg fuel rest
+      pure (.par e k, rest)
+    | "G" :: p :: r :: v :: rest => do
+      let p ← parseSlot p; let r ← parseSlot r; let v ← parseSlot v
+      let (k, rest) ← parseXProg fuel rest
+      pure (.gab p r v k, rest)
+    | "B" :: rest => do
+      let (a, rest) ← parseConfig rest
+      let (body, rest) ← parseXProg fuel rest
+      let (k, rest) ← parseXProg fuel rest
+      pure (.block a body k, rest)
+    | "C" :: rest => do
+      let (a, rest) ← parseConfig rest
+      let (k, rest) ← parseXProg fuel rest
+      pure (.create a k, rest)
+    | "U" :: i :: rest => do
+      let i ← i.toNat?
+      let (k, rest) ← parseXProg fuel rest
+      pure (.unreg i k, rest)
+    | "T" :: rest => do
+      let (body, rest) ← parseXProg fuel rest
+      let (k, rest) ← parseXProg fuel rest
+      pure (.try_ body k, rest)
+    | _ => none
+
 def opLetter : Op → String
   | .enter _ => "E" | .exit => "X" | .par _ => "P" | .gab _ _ _ => "G"
+  | .create _ => "C" | .unreg _ => "U" | .spawn _ _ => "S"
+
+def parseKind (tok : String) : Option SpawnKind :=
+  if tok = "plain" then some .plain else if tok = "copied" then some .copiedContext
+  else if tok = "to_thread" then some .toThread else none
 
 structure St where
   env : Env
   g : Global
+  /-- the thread ids some request has named (a spawned thread must be new) -/
+  used : List Nat
 
 def threadOp (st : St) (t : Nat) (op : Op) : St × String :=
   let (g', o) := gstep st.env st.g t op
@@ -144,6 +195,33 @@ def handleThread (st : St) (t : Nat) (cmd : String) (rest : List String) : St ×
   else if cmd = "exit" then
     match rest with
     | [] => threadOp st t .exit
+    | _ => (st, "bad-op")
+  else if cmd = "create" then
+    match parseConfig rest with
+    | some (a, []) => threadOp st t (.create a)
+    | _ => (st, "bad-op")
+  else if cmd = "createb" then
+    match rest with
+    | [b, n] =>
+      match parseVal b, parseSlot n with
+      | some b, some n => threadOp st t (.create (parallelBackendArgs b n))
+      | _, _ => (st, "bad-op")
+    | _ => (st, "bad-op")
+  else if cmd = "unreg" then
+    match rest with
+    | [k] =>
+      match k.toNat? with
+      | some k => threadOp st t (.unreg k)
+      | none => (st, "bad-op")
+    | _ => (st, "bad-op")
+  else if cmd = "spawn" then
+    match rest with
+    | [u, kind] =>
+      match u.toNat?, parseKind kind with
+      | some u, some kind =>
+        if u = t || st.used.contains u then (st, "bad-op")
+        else threadOp { st with used := u :: st.used } t (.spawn u kind)
+      | _, _ => (st, "bad-op")
     | _ => (st, "bad-op")
   else if cmd = "par" then
     match parseConfig rest with
@@ -169,7 +247,7 @@ def handle (st : Option St) (line : String) : Option St × String :=
     match c.toList, parseDefaults rest with
     | [ch], some d =>
       match clsOfChar ch with
-      | some cls => (some ⟨⟨cls, d⟩, fun _ => TState.init⟩, "ok")
+      | some cls => (some ⟨⟨cls, d⟩, fun _ => TState.init, []⟩, "ok")
       | none => (st, "bad-op")
     | _, _ => (st, "bad-op")
   | "prog" :: rest =>
@@ -182,9 +260,17 @@ def handle (st : Option St) (line : String) : Option St × String :=
           String.join (r.ops.map opLetter)])
       | _ => (st, "bad-op")
     | none => (st, "bad-op")
+  | "xprog" :: rest =>
+    match parseXProg (rest.length + 1) rest with
+    | some (p, []) =>
+      let r := xrun p TState.init
+      (st, joinSp ["cfg", showConfig r.state.cfg, if r.raised then "1" else "0",
+        String.join (r.ops.map opLetter)])
+    | _ => (st, "bad-op")
   | t :: cmd :: rest =>
     match t.toNat?, st with
     | some t, some s =>
+      let s := if s.used.contains t then s else { s with used := t :: s.used }
       let (s', out) := handleThread s t cmd rest
       (some s', out)
     | _, _ => (st, "bad-op")
